@@ -362,7 +362,12 @@ let () =
             | "opt", [t] ->
                 (* Tree::optimized on a handle that carries the flag returns it unchanged *)
                 if (not !noflags) && Hashtbl.mem optflag (int_of_string t) then add_handle (h t)
-                else set (optimized f32 !a (nat_of_int (h t)));
+                else begin
+                  (* the level fuel of Tree/Optimize.v must suffice (theorem for src_ok_o sources; checked here) *)
+                  let (res, oof) = optimized_full f32 !a (nat_of_int (h t)) in
+                  if oof then out "OOF";
+                  set res
+                end;
                 Hashtbl.replace optflag (Array.length !handles - 1) true
             | "dump", [t] ->
                 out ("D " ^ dump_dag !a (h t) var_index);
